@@ -176,8 +176,6 @@ def gen_case(seed, idx, big=False, force=None, ntsc_ok=True):
         nch = 0
         if npts == 0:
             nframes = 0
-    if nch == 0 and not empty_analog and r.random() < 0.3:
-        pass
     # ---------------- rates
     ntsc = ntsc_ok and r.random() < 0.15
     prate = r.choice(NTSC) if ntsc else r.choice(EXACT)
@@ -198,6 +196,11 @@ def gen_case(seed, idx, big=False, force=None, ntsc_ok=True):
             nframes = max(1, 4000 // (nch * sub))
         ntsc = True
         meta["variants"] = ["fragile_rate_ratio"]
+    # no channels, yet an ANALOG group that only says so (USED = 0, RATE, GEN_SCALE; no LABELS/SCALE/OFFSET/UNITS arrays) while the header
+    # still carries the sub-frame ratio
+    minimal_analog = nch == 0 and not empty_analog and r.random() < 0.3
+    if minimal_analog:
+        meta["variants"].append("minimal_analog_group")
     meta["rates"] = [prate, arate, sub]
     # ---------------- group ids
     ngroups_custom = r.choice([0, 0, 1, 2, 3, r.randint(0, 6)])
@@ -260,7 +263,11 @@ def gen_case(seed, idx, big=False, force=None, ntsc_ok=True):
     if params[-1]["dims"][0]:
         params[-1]["values"] = [bytes(r.choice(b"abc def") for _ in range(r.randint(0, params[-1]["dims"][0]))).rstrip(b" ") for _ in range(nlab)]
     params.append(dict(gid=P, name=b"UNITS", type=-1, dims=[4], values=[r.choice([b"mm", b"m", b"cm"])]))    # 1-D padded string (Vicon style)
-    if not empty_analog:
+    if minimal_analog:
+        params.append(dict(gid=A, name=b"USED", type=2, dims=[], values=[0], locked=True))
+        params.append(dict(gid=A, name=b"GEN_SCALE", type=4, dims=[], values=[fbits(1.0)]))
+        params.append(dict(gid=A, name=b"RATE", type=4, dims=[], values=[fbits(arate)], locked=True))
+    elif not empty_analog:
         alabels = []
         seen = set()
         alv = "equal" if "labels_vs_points" not in chosen or nch == 0 else r.choice(["equal", "fewer", "more"])
